@@ -100,6 +100,9 @@ type src struct {
 	big  *big.Int
 	ptr  bool // pass a pointer to the value
 	sub  int  // variant of nil / other
+	ext  any  // kind "x": a value of a Go numeric type no switch of pkg/coerce names (uintptr, named types)
+	extT string
+	extD *big.Rat // what it denotes (nil: NaN / nothing)
 }
 
 func (v src) isInt() bool { return len(v.kind) >= 2 && (v.kind[0] == 'i' || v.kind[0] == 'u') }
@@ -149,6 +152,8 @@ func (v src) base() any {
 		default:
 			return (*string)(nil)
 		}
+	case "x":
+		return v.ext
 	case "other":
 		switch v.sub % 3 {
 		case 0:
@@ -198,6 +203,8 @@ func (v src) tokens() string {
 		return "nil"
 	case "other":
 		return "other"
+	case "x":
+		return "x " + v.extT
 	case "str":
 		// the library calls whose results are parameters of the model
 		trim := strings.TrimSpace(v.s)
@@ -412,6 +419,11 @@ func (v src) denote() den {
 		return den{"rat", new(big.Rat).SetInt(v.big)}
 	case "nil", "other":
 		return den{class: "none"}
+	case "x":
+		if v.extD == nil {
+			return den{class: "none"}
+		}
+		return den{"rat", v.extD}
 	}
 	if kindByName(v.kind).signed {
 		return den{"rat", new(big.Rat).SetInt64(v.i)}
@@ -724,9 +736,10 @@ var plainSchemas = map[string][]func() any{
 // chk is the single check attached to a schema.
 type chk struct {
 	op    string // none | lt | lte | gt | gte | minlen | maxlen
-	bkind string // i64 | f64 | n
+	bkind string // i64 | f64 | n | big
 	bi    int64
 	bf    float64
+	bbig  *big.Int
 }
 
 func (c chk) tokens() string {
@@ -735,6 +748,8 @@ func (c chk) tokens() string {
 		return fmt.Sprintf("%s i64 %d", c.op, c.bi)
 	case "f64":
 		return fmt.Sprintf("%s f64 %d", c.op, math.Float64bits(c.bf))
+	case "big":
+		return fmt.Sprintf("%s big %s", c.op, c.bbig.String())
 	default:
 		return fmt.Sprintf("%s n %d", c.op, c.bi)
 	}
@@ -753,6 +768,8 @@ func attach(schema any, c chk) any {
 		arg = reflect.ValueOf(c.bi)
 	case "f64":
 		arg = reflect.ValueOf(c.bf)
+	case "big":
+		arg = reflect.ValueOf(new(big.Int).Set(c.bbig))
 	default:
 		arg = reflect.ValueOf(int(c.bi))
 	}
@@ -1123,10 +1140,19 @@ func bigGrid() []src {
 
 // checkFor picks a check whose bound sits next to the value the coercion should produce.
 func checkFor(r *hx.Rng, t string, v src) chk {
-	if r.Chance(25) || t == "bool" || t == "big" {
+	if r.Chance(25) || t == "bool" {
 		return chk{op: "none", bkind: "n"}
 	}
 	d := v.denote()
+	if t == "big" {
+		// a *big.Int bound next to the value (BigInt().Gt/Gte/Lt/Lte)
+		b := big.NewInt(int64(r.Intn(7) - 3))
+		if d.class == "rat" {
+			b = new(big.Int).Quo(d.r.Num(), d.r.Denom())
+			b.Add(b, big.NewInt(int64(r.Intn(3)-1)))
+		}
+		return chk{op: hx.Pick(r, []string{"lt", "lte", "gt", "gte"}), bkind: "big", bbig: b}
+	}
 	if t == "str" {
 		for i := 0; i < len(v.s); i++ {
 			if v.s[i] >= 0x80 {
@@ -1183,6 +1209,236 @@ func checkFor(r *hx.Rng, t string, v src) chk {
 }
 
 // ---------------------------------------------------------------------------------------------
+
+// Named numeric types and uintptr: Go numeric kinds that no type switch of pkg/coerce names.  The
+// code answers "unsupported" for each (a failure, which the statement allows); the model's source
+// for them is `other` and the oracle knows the value they hold, so a new `case uintptr:` /
+// reflect.Kind-based branch that wraps or truncates is exercised on concrete boundary values.
+type (
+	myInt     int
+	myInt8    int8
+	myInt16   int16
+	myInt32   int32
+	myInt64   int64
+	myUint    uint
+	myUint8   uint8
+	myUint16  uint16
+	myUint32  uint32
+	myUint64  uint64
+	myUintptr uintptr
+	myFloat32 float32
+	myFloat64 float64
+)
+
+func extGrid() []src {
+	var out []src
+	add := func(t string, x any, d *big.Rat) { out = append(out, src{kind: "x", ext: x, extT: t, extD: d}) }
+	ri := func(i int64) *big.Rat { return new(big.Rat).SetInt64(i) }
+	ru := func(u uint64) *big.Rat { return new(big.Rat).SetUint64(u) }
+	rf := func(f float64) *big.Rat {
+		if math.IsNaN(f) || math.IsInf(f, 0) {
+			return nil
+		}
+		return new(big.Rat).SetFloat64(f)
+	}
+	for _, u := range []uint64{0, 1, 127, 128, 255, 256, 32767, 32768, 65535, 65536, 1<<31 - 1, 1 << 31, 1<<32 - 1, 1 << 32, 1 << 53, 1<<53 + 1,
+		1<<63 - 1, 1 << 63, 1<<63 + 1, math.MaxUint64 - 1, math.MaxUint64} {
+		add("uintptr", uintptr(u), ru(u))
+		add("myUintptr", myUintptr(u), ru(u))
+		add("myUint64", myUint64(u), ru(u))
+		add("myUint", myUint(u), ru(u))
+	}
+	for _, i := range []int64{0, 1, -1, 127, 128, -128, -129, 255, 256, 32767, 32768, -32768, -32769, 1<<31 - 1, 1 << 31, -(1 << 31), -(1 << 31) - 1,
+		1 << 32, 1<<53 + 1, math.MaxInt64, math.MinInt64} {
+		add("myInt64", myInt64(i), ri(i))
+		add("myInt", myInt(i), ri(i))
+	}
+	for _, i := range []int64{0, 1, -1, 127, -128} {
+		add("myInt8", myInt8(i), ri(i))
+		add("myInt16", myInt16(i*256+i), ri(int64(int16(i*256+i))))
+		add("myInt32", myInt32(i*65536*128+i), ri(int64(int32(i*65536*128+i))))
+	}
+	for _, u := range []uint64{0, 1, 255} {
+		add("myUint8", myUint8(u), ru(u))
+		add("myUint16", myUint16(u*257), ru(u*257))
+		add("myUint32", myUint32(u*16843009), ru(u*16843009))
+	}
+	for _, f := range []float64{0, 1, -1, 0.5, -0.5, 1.5, 255.5, 1 << 24, 1<<24 + 2, 1 << 53, 1 << 63, -(1 << 63), 1 << 64, 1e30, math.MaxFloat32, math.Inf(1), math.Inf(-1), math.NaN()} {
+		add("myFloat64", myFloat64(f), rf(f))
+		add("myFloat32", myFloat32(float32(f)), rf(float64(float32(f))))
+	}
+	return out
+}
+
+// textCases: boundary-directed texts for the text primitives (P lines: strings.TrimSpace,
+// strconv.ParseInt / ParseUint at 8/16/32/64 bits, big.Int.SetString base 10 and 16).
+func textCases(r *hx.Rng, nRandom int) []string {
+	seen := map[string]bool{}
+	var out []string
+	add := func(s string) {
+		if !seen[s] {
+			seen[s] = true
+			out = append(out, s)
+		}
+	}
+	spaces := []string{" ", "\t", "\n", "\v", "\f", "\r", "\u0085", "\u00a0", "\u1680", "\u2000", "\u2005", "\u200a", "\u2028", "\u2029", "\u202f", "\u205f", "\u3000"}
+	notSpaces := []string{"\u200b", "\ufeff", "\u180e", "\x00", "\x1f", "\xa0", "\x85", "\xc2", "\xe2\x80", "\xe2\x80\x8b", "\xe3\x80", "\u2060", "\u00ad"}
+	decorate := func(t string) {
+		add(t)
+		digits, sign := t, ""
+		if strings.HasPrefix(t, "-") || strings.HasPrefix(t, "+") {
+			sign, digits = t[:1], t[1:]
+		}
+		if sign == "" {
+			add("+" + t)
+		}
+		add(sign + "0" + digits)
+		add(sign + "000" + digits)
+		add(sign + strings.Repeat("0", 70) + digits)
+		add(" " + t)
+		add(t + " ")
+		add(hx.Pick(r, spaces) + t + hx.Pick(r, spaces))
+		add(hx.Pick(r, spaces) + hx.Pick(r, spaces) + t)
+		add(hx.Pick(r, notSpaces) + t)
+		add(t + hx.Pick(r, notSpaces))
+		add(" " + hx.Pick(r, notSpaces) + t + " ")
+		if len(digits) > 1 {
+			k := 1 + r.Intn(len(digits)-1)
+			add(sign + digits[:k] + "_" + digits[k:])
+			add(sign + digits[:k] + " " + digits[k:])
+			add(sign + digits[:k] + "." + digits[k:])
+			add(sign + digits[:k] + "e" + digits[k:])
+		}
+		add(sign + "_" + digits)
+		add(t + "_")
+		add(sign + sign + digits)
+		add("-+" + digits)
+		add("+-" + digits)
+		add(sign + " " + digits)
+		add(t + ".")
+		add(t + ".0")
+		add(t + "e0")
+		add("0x" + t)
+		add("0x" + digits)
+		add("0X" + sign + digits)
+		add(t + "\x00")
+		// one-character corruption
+		if len(t) > 0 {
+			b := []byte(t)
+			b[r.Intn(len(b))] = hx.Pick(r, []byte("/:+-_ aAfFgxX\x80\xc2٠"))
+			add(string(b))
+		}
+	}
+	one := big.NewInt(1)
+	var limits []*big.Int
+	for _, w := range []uint{7, 8, 15, 16, 31, 32, 63, 64} {
+		p := new(big.Int).Lsh(one, w)
+		for d := int64(-2); d <= 2; d++ {
+			limits = append(limits, new(big.Int).Add(p, big.NewInt(d)))
+			limits = append(limits, new(big.Int).Neg(new(big.Int).Add(p, big.NewInt(d))))
+		}
+	}
+	for k := 0; k <= 22; k++ {
+		p := new(big.Int).Exp(big.NewInt(10), big.NewInt(int64(k)), nil)
+		limits = append(limits, p, new(big.Int).Sub(p, one), new(big.Int).Neg(p))
+	}
+	for _, x := range []string{"0", "-0", "7", "42", "99999999999999999999", "184467440737095516150", "18446744073709551616000", "-99999999999999999999",
+		"340282366920938463463374607431768211456", "12345678901234567890123456789012345678901234567890"} {
+		n, _ := new(big.Int).SetString(x, 10)
+		limits = append(limits, n)
+	}
+	for _, n := range limits {
+		decorate(n.String())
+	}
+	for _, t := range []string{"", " ", "+", "-", "_", "0_1", "1_", "__", "+ 1", "- 1", "1 2", "١٢٣", "１２", "0x", "0X", "0x1F", "0X1f", "0xff", "0xFG", "0x+1F", "0x-ff", "0x_1", "0x 1",
+		"-0x1F", "+0x1F", "0b101", "0o17", "017", "1e3", "1.0", ".5", "1,000", "1'000", "NaN", "inf", "true", "\u00a0", "\u3000\u2003", "\xc2\xa0\xc2", "\xe2\x80\x80\x80",
+		" 7\xc2", "\xc27 ", "\xe2\x80 7", "7 \xe2\x80", "7\xe2\x80\xa8", "7\xe2\x80\xa7", "\xe2\x81\x9f7", "\xe2\x81\x9e7", "\xe1\x9a\x807", "\xe1\x9a\x817"} {
+		add(t)
+	}
+	alphabet := []byte("0123456789012345678901234567890123456789+-_ \t.exXaAfF")
+	for i := 0; i < nRandom; i++ {
+		switch r.Intn(3) {
+		case 0: // random text over the numeral alphabet
+			n := r.Intn(25)
+			b := make([]byte, n)
+			for j := range b {
+				b[j] = hx.Pick(r, alphabet)
+			}
+			add(string(b))
+		case 1: // a random 64-bit value, decorated
+			u := r.Next() >> uint(r.Intn(64))
+			t := strconv.FormatUint(u, 10)
+			if r.Chance(50) {
+				t = "-" + t
+			}
+			decorate(t)
+		default: // digits around the 19/20-digit boundary
+			n := 17 + r.Intn(5)
+			b := make([]byte, n)
+			for j := range b {
+				b[j] = byte('0' + r.Intn(10))
+			}
+			t := string(b)
+			if r.Chance(40) {
+				t = "-" + t
+			}
+			add(t)
+			add(hx.Pick(r, spaces) + t)
+		}
+	}
+	return out
+}
+
+func optI(i int64, err error) string {
+	if err != nil {
+		return "E"
+	}
+	return strconv.FormatInt(i, 10)
+}
+func optU(u uint64, err error) string {
+	if err != nil {
+		return "E"
+	}
+	return strconv.FormatUint(u, 10)
+}
+
+// textObs is what the real strings / strconv / math/big functions answer for s (the calls
+// pkg/coerce makes, plus ParseInt/ParseUint at the narrower widths).
+func textObs(s string) string {
+	t := strings.TrimSpace(s)
+	parts := []string{"p", hexOrDash(t)}
+	for _, w := range []int{8, 16, 32, 64} {
+		parts = append(parts, optI(strconv.ParseInt(t, 10, w)))
+	}
+	for _, w := range []int{8, 16, 32, 64} {
+		parts = append(parts, optU(strconv.ParseUint(t, 10, w)))
+	}
+	b10 := "E"
+	if n, ok := new(big.Int).SetString(t, 10); ok {
+		b10 = n.String()
+	}
+	hp := strings.HasPrefix(t, "0x") || strings.HasPrefix(t, "0X")
+	b16 := "-"
+	if hp {
+		b16 = "E"
+		if n, ok := new(big.Int).SetString(t[2:], 16); ok {
+			b16 = n.String()
+		}
+	}
+	return strings.Join(append(parts, b10, hx.B01(hp), b16), " ")
+}
+
+// fmtObs: strconv.FormatInt / FormatUint / big.Int.String of n.
+func fmtObs(n *big.Int) string {
+	fi, fu := "-", "-"
+	if n.IsInt64() {
+		fi = hexOrDash(strconv.FormatInt(n.Int64(), 10))
+	}
+	if n.IsUint64() {
+		fu = hexOrDash(strconv.FormatUint(n.Uint64(), 10))
+	}
+	return "f " + fi + " " + fu + " " + hexOrDash(n.String())
+}
 
 func runC17(c hx.Config) error {
 	o, err := hx.NewOut(c.OutDir)
@@ -1281,8 +1537,41 @@ func runC17(c hx.Config) error {
 	for i := 0; i < 3; i++ {
 		grid = append(grid, src{kind: "nil", sub: i}, src{kind: "other", sub: i})
 	}
+	grid = append(grid, extGrid()...)
 	for _, v := range grid {
 		all(withPtr(v), 60)
+	}
+	// (3) the text primitives themselves: Lean's TrimSpace / ParseInt / ParseUint / SetString /
+	// FormatInt (Model/ParseInt.lean) against strings / strconv / math/big.
+	nt := 1500
+	if thorough {
+		nt = 150000
+	}
+	for _, s := range textCases(r, nt) {
+		o.Emit("c17 P "+hexOrDash(s), textObs(s))
+		o.Count("P:text")
+	}
+	var fms []*big.Int
+	for _, v := range grid {
+		switch {
+		case v.kind == "big":
+			fms = append(fms, v.big)
+		case v.isInt() && kindByName(v.kind).signed:
+			fms = append(fms, big.NewInt(v.i))
+		case v.isInt():
+			fms = append(fms, new(big.Int).SetUint64(v.u))
+		}
+	}
+	for i := 0; i < nt; i++ {
+		x := new(big.Int).SetUint64(r.Next() >> uint(r.Intn(64)))
+		if r.Chance(50) {
+			x.Neg(x)
+		}
+		fms = append(fms, x)
+	}
+	for _, n := range fms {
+		o.Emit("c17 F "+n.String(), fmtObs(n))
+		o.Count("F:format")
 	}
 	return o.Close(map[string]any{"seed": c.Seed, "tier": c.Tier})
 }
